@@ -208,6 +208,23 @@ static void sec_rle_runs(int scale) {
     v_sample("rle_runs: all (a,b,c) alternating run triples in [0,%d]^3 x 14 widths; literal-prefix p x run r x tail t", M);
 }
 
+/* the same values laid out the way other writers lay them out: bit-packed runs of several 8-value groups (carquet's encoder writes one group
+ * per run) mixed with RLE runs, assembled here from carquet's own group packer. The streaming decoder under random chunking must agree with
+ * the values. */
+static void multigroup_case(const uint32_t* v, int64_t n, int w) { if (n < 9 || w < 1) return; size_t cap = (size_t)n * 5 + 64; uint8_t* st = v_exact(cap); size_t k = 0; int64_t i = 0;
+    while (i < n) { int64_t left = n - i; int64_t j = i; while (j < n && v[j] == v[i]) j++;
+        if (j - i >= 8 && vrng_chance(&R, 2, 3)) { uint64_t h = (uint64_t)(j - i) << 1; while (h >= 0x80) { st[k++] = (uint8_t)(h | 0x80); h >>= 7; } st[k++] = (uint8_t)h; for (int q = 0; q < (w + 7) / 8; q++) st[k++] = (uint8_t)(v[i] >> (8 * q)); i = j; continue; }
+        int64_t groups = 1 + (int64_t)vrng_below(&R, 6); if (groups * 8 > left) groups = (left + 7) / 8; if (groups * 8 <= left || i + groups * 8 >= n) { /* only the final run may be padded */ } else groups = left / 8 ? left / 8 : 1;
+        uint64_t h = ((uint64_t)groups << 1) | 1; while (h >= 0x80) { st[k++] = (uint8_t)(h | 0x80); h >>= 7; } st[k++] = (uint8_t)h;
+        for (int64_t g = 0; g < groups; g++) { uint32_t grp[8]; for (int q = 0; q < 8; q++) grp[q] = i + q < n ? v[i + q] : 0; carquet_bitpack8_32(grp, w, st + k); k += (size_t)w; i += 8; } }
+    uint8_t* enc = v_exact_copy(st, k); carquet_rle_decoder_t d; carquet_rle_decoder_init(&d, enc, k, w); uint32_t* out = v_exact((size_t)n * 4); int64_t pos = 0; int bad = 0; char hist[200]; size_t hn = 0; hist[0] = 0;
+    while (pos < n && !bad) { int op = (int)vrng_below(&R, 4); int64_t c = 1 + (int64_t)vrng_below(&R, 23); if (c > n - pos) c = n - pos;
+        if (op == 0) { if (!carquet_rle_decoder_has_next(&d)) { bad = 1; break; } out[pos++] = carquet_rle_decoder_get(&d); if (hn + 6 < sizeof hist) hn += (size_t)snprintf(hist + hn, sizeof hist - hn, "g "); }
+        else if (op == 1) { int64_t g = carquet_rle_decoder_skip(&d, c); if (g != c) { bad = 2; break; } for (int64_t q = 0; q < c; q++) out[pos + q] = v[pos + q]; pos += c; if (hn + 10 < sizeof hist) hn += (size_t)snprintf(hist + hn, sizeof hist - hn, "s%lld ", (long long)c); }
+        else { int64_t g = carquet_rle_decoder_get_batch(&d, out + pos, c); if (g != c) { bad = 3; break; } pos += c; if (hn + 10 < sizeof hist) hn += (size_t)snprintf(hist + hn, sizeof hist - hn, "b%lld ", (long long)c); } }
+    v_count("rle_multi_group_streams"); if (bad || memcmp(out, v, (size_t)n * 4)) { int64_t f = 0; while (f < n && out[f] == v[f]) f++; v_viol("rle:stream-decoder-on-multi-group-runs", "width=%d n=%lld bad=%d first difference at %lld history=%s", w, (long long)n, bad, (long long)f, hist); }
+    free(out); free(enc); free(st); }
+
 static void sec_rle_gen(int scale) {
     int64_t cases = scale >= 2 ? 400000 : 40000;
     for (int64_t ci = 0; ci < cases; ci++) {
@@ -222,7 +239,7 @@ static void sec_rle_gen(int scale) {
             if (vrng_chance(&R, 1, 8)) x = top; if (vrng_chance(&R, 1, 8)) x = 0;
             for (int64_t k = 0; k < run && i < n; k++) v[i++] = x;
         }
-        rle_case(v, n, w, (ci % 4) == 0);
+        rle_case(v, n, w, (ci % 4) == 0); if (ci % 3 == 1) multigroup_case(v, n, w);
         if (w == 0) v_count("rle_width0_cases"); if (w == 32) v_count("rle_width32_cases");
         free(v);
     }
